@@ -617,6 +617,11 @@ def camera_recipes(ctx):
                     return [nest(shape[1:]) for _ in range(shape[0])]
                 out.append({"fn": "homo", "P": nest(bs), "scale4": rng.choice((4, 8, -4, 3, -10, 1)), "dtype": dtype,
                             "cls": "single" if not bs else "batched"})
+                # homogeneous coordinates far below eps (but far above the smallest normal number): a global power-of-two
+                # factor cancels exactly, whatever its size
+                tiny = 2.0 ** (-30 if dtype == "float32" else -70)
+                out.append({"fn": "homo", "P": nest(bs), "scale4": rng.choice((4 * tiny, -4 * tiny, 12 * tiny)), "dtype": dtype,
+                            "cls": "tiny_w"})
     return out
 
 
